@@ -17,7 +17,9 @@ ENTRY = dict(
          "`ident-sweep`, `shrink-ext-body` and `reorder-or-repeat` hello mutations as Coq cases. flag matrix: a valid TLS 1.3 hello with/without "
          "padding x with/without a non-empty pre_shared_key under all 8 Fingerprinter flag sets (32 Coq cases + usability oracle), and every PSK "
          "parrot as a resuming hello (filled FakePreSharedKeyExtension), with and without its padding extension, under all 8 flag sets (Go "
-         "oracle). The usability oracle (ApplyPreset + BuildHandshakeState under recover) applies to every accepted input without a repeated "
+         "oracle). version sweep: record-layer version x legacy_version over {0x0300,0x0301,0x0302,0x0303,0x0304,0x0200,0xfefd} in all orders, with and "
+         "without supported_versions (98 hellos -> fingerprint -> usability oracle; the 50 in the TLS range also as Coq cases) and "
+         "UConn.SetTLSVers(min,max,exts) directly for every pair incl. 0 (CSetVers). The usability oracle (ApplyPreset + BuildHandshakeState under recover) applies to every accepted input without a repeated "
          "extension type and with pre_shared_key last. "
          "Distinct by (generator index, mutation index, flags); non-trivial: accepted with at least one extension, or refused after the "
          "fixed header, or any panic.",
